@@ -1449,7 +1449,9 @@ class Obj(Container):
         if self.name == tensor_names.fock:
             space = self.space
             assert len(space) == 2
-            if space[0] == space[1]:  # diagonal block
+            # only the occ-virt and virt-occ blocks vanish. A block with a
+            # general index contains a diagonal block and has to be kept.
+            if space[0] == space[1] or "g" in space:
                 bl_diag = self.sympy
             else:  # off diagonal block
                 bl_diag = 0
